@@ -748,6 +748,16 @@ func (tr *typeRes) callType(c *ast.CallExpr, idx int, depth int) ast.Expr {
 			}
 			return nil
 		}
+		if isIdent(f.X, "strings") && tr.lookup("strings", f.Pos()) == nil && tr.imports["strings"] {
+			// the standard library's signatures (fixed by the Go 1 compatibility promise)
+			switch f.Sel.Name {
+			case "Split", "SplitN", "SplitAfter", "SplitAfterN", "Fields":
+				return &ast.ArrayType{Elt: ast.NewIdent("string")}
+			case "Join", "Repeat", "TrimSpace", "TrimRight", "TrimLeft", "Trim", "TrimPrefix", "TrimSuffix", "ToLower", "ToUpper", "Replace", "ReplaceAll":
+				return ast.NewIdent("string")
+			}
+			return nil
+		}
 		if id, ok := f.X.(*ast.Ident); ok && tr.lookup(id.Name, id.Pos()) == nil && tr.imports[id.Name] {
 			return nil // a function of another package
 		}
